@@ -88,9 +88,11 @@ Cancel ==
 
 \* the callback returns an error of its own
 \* ("ctxerr": the error wraps context.Canceled / DeadlineExceeded of an unrelated context -
-\* the transaction's own context is alive, so it is an error like any other)
+\* the transaction's own context is alive, so it is an error like any other; "txdone": the error
+\* wraps sql.ErrTxDone of some other, already finished transaction handle - this transaction is
+\* still open and must be rolled back all the same)
 ReturnsErr ==
-    /\ Active /\ Job.k = "tx" /\ tx = "open" /\ AtFault /\ Job.fault.kind \in {"err", "ctxerr"}
+    /\ Active /\ Job.k = "tx" /\ tx = "open" /\ AtFault /\ Job.fault.kind \in {"err", "ctxerr", "txdone"}
     /\ pos' = Len(Job.ins) + 2
     /\ fired' = TRUE
     /\ UNCHANGED <<plan, j, committed, pending, tx, ctxdead, ignored, calls, results, leaked>>
